@@ -30,7 +30,7 @@ pub fn resolve_ifs(
             
         if opts.debug_iterations
         {
-            println!("  #if: {} = {}",
+            debug_println!("  #if: {} = {}",
                 fileserver.get_excerpt(node.condition_expr.span()),
                 condition_result);
         }
